@@ -124,9 +124,9 @@ Proof.
 Qed.
 
 (* a known escape contributes its character and two bytes *)
-Lemma lex_str_escape f c v r pos tmp start endpos : escape_value c = Some v ->
-  lex_str (S f) (String "\" (String c r)) pos tmp start endpos =
-  lex_str f r (pos + 2) (tmp ++ String v "") start endpos.
+Lemma lex_str_escape curly f c v r pos tmp start endpos : escape_value c = Some v ->
+  lex_str curly (S f) (String "\" (String c r)) pos tmp start endpos =
+  lex_str curly f r (pos + 2) (tmp ++ String v "") start endpos.
 Proof.
   intros H. rewrite lex_str_S. change (byte_of "\" =? 92)%N with true. cbv iota.
   rewrite (take_char_ascii c r (escape_ascii c v H)). cbv zeta.
@@ -134,38 +134,40 @@ Proof.
 Qed.
 
 (* an unknown escape is an error whose span is the backslash and the character *)
-Lemma lex_str_bad_escape f r c2 r2 pos tmp start endpos :
+Lemma lex_str_bad_escape curly f r c2 r2 pos tmp start endpos :
   take_char r = Some (c2, r2) -> (forall c, escape_value c <> None -> c2 <> String c "") ->
-  lex_str (S f) (String "\" r) pos tmp start endpos =
+  lex_str curly (S f) (String "\" r) pos tmp start endpos =
   (TErr PEscape pos (S pos + String.length c2), r2, S pos + String.length c2).
 Proof.
   intros Ht H. rewrite lex_str_S. change (byte_of "\" =? 92)%N with true. cbv iota.
   rewrite Ht. cbv zeta. rewrite (esc_unknown c2 H). reflexivity.
 Qed.
 
-Lemma lex_str_bad_escape_ascii f c r pos tmp start endpos :
+Lemma lex_str_bad_escape_ascii curly f c r pos tmp start endpos :
   (byte_of c < 128)%N -> escape_value c = None ->
-  lex_str (S f) (String "\" (String c r)) pos tmp start endpos = (TErr PEscape pos (pos + 2), r, pos + 2).
+  lex_str curly (S f) (String "\" (String c r)) pos tmp start endpos = (TErr PEscape pos (pos + 2), r, pos + 2).
 Proof.
-  intros Ha H. rewrite (lex_str_bad_escape f (String c r) (String c "") r).
+  intros Ha H. rewrite (lex_str_bad_escape curly f (String c r) (String c "") r).
   - cbn [String.length]. replace (S pos + 1) with (pos + 2) by lia. reflexivity.
   - apply take_char_ascii. exact Ha.
   - intros c0 Hc0 E. injection E as ->. congruence.
 Qed.
 
 (* a backslash at the very end: unterminated *)
-Lemma lex_str_trailing_backslash f pos tmp start endpos :
-  lex_str (S f) "\" pos tmp start endpos = (TErr PUntermStr pos endpos, "", S pos).
+Lemma lex_str_trailing_backslash curly f pos tmp start endpos :
+  lex_str curly (S f) "\" pos tmp start endpos = (TErr PUntermStr pos endpos, "", S pos).
 Proof. reflexivity. Qed.
 
-Lemma lex_str_end f pos tmp start endpos :
-  lex_str (S f) "" pos tmp start endpos = (TErr PUntermStr pos endpos, "", pos).
+Lemma lex_str_end curly f pos tmp start endpos :
+  lex_str curly (S f) "" pos tmp start endpos = (TErr PUntermStr pos endpos, "", pos).
 Proof. reflexivity. Qed.
 
 (* ---------- a written string body ---------- *)
 
 (* a body is a sequence of: an ordinary byte, a three-byte character led by E2 (the lead byte of
-   the curly quotes) other than the closing curly quote, or an escape *)
+   the curly quotes) - other than the closing curly quote when the literal was opened by a curly
+   quote ([curly] = true); in a straight-opened literal the closing curly quote is an ordinary
+   character of the body - or an escape *)
 Inductive sitem :=
 | SByte (c : ascii)
 | SE2 (c1 c2 : ascii)
@@ -174,10 +176,11 @@ Inductive sitem :=
 Definition plain_byte (c : ascii) : bool :=
   let n := byte_of c in negb (n =? 92)%N && negb (n =? 34)%N && negb (n =? 226)%N.
 
-Definition sitem_ok (i : sitem) : bool :=
+Definition sitem_ok (curly : bool) (i : sitem) : bool :=
   match i with
   | SByte c => plain_byte c
-  | SE2 c1 c2 => plain_byte c1 && plain_byte c2 && negb ((byte_of c1 =? 128)%N && (byte_of c2 =? 157)%N)
+  | SE2 c1 c2 => plain_byte c1 && plain_byte c2 &&
+                 negb (curly && ((byte_of c1 =? 128)%N && (byte_of c2 =? 157)%N))
   | SEsc c => match escape_value c with Some _ => true | None => false end
   end.
 
@@ -202,45 +205,46 @@ Fixpoint sitems_text (l : list sitem) : string :=
 Fixpoint sitems_value (l : list sitem) : string :=
   match l with [] => "" | i :: r => sitem_value i ++ sitems_value r end.
 
-(* the closing quote: straight or curly *)
-Definition is_closer (q : string) : Prop := q = String """" "" \/ q = rdq.
+(* the closing quote: straight, or curly if the literal was opened by a curly quote *)
+Definition is_closer (curly : bool) (q : string) : Prop := q = String """" "" \/ (curly = true /\ q = rdq).
 
 Lemma starts_rdq_false c r : (byte_of c =? 226)%N = false -> starts_rdq (String c r) = false.
 Proof. intros H. destruct r as [|b [|d r]]; cbn [starts_rdq]; try reflexivity. rewrite H. reflexivity. Qed.
 
-Lemma lex_str_plain f c r pos tmp start endpos : plain_byte c = true ->
-  lex_str (S f) (String c r) pos tmp start endpos = lex_str f r (S pos) (tmp ++ String c "") start endpos.
+Lemma lex_str_plain curly f c r pos tmp start endpos : plain_byte c = true ->
+  lex_str curly (S f) (String c r) pos tmp start endpos = lex_str curly f r (S pos) (tmp ++ String c "") start endpos.
 Proof.
   unfold plain_byte. intros H. rewrite lex_str_S.
   replace (byte_of c =? 92)%N with false by lia. replace (byte_of c =? 34)%N with false by lia.
-  rewrite starts_rdq_false by lia. reflexivity.
+  rewrite starts_rdq_false by lia. rewrite andb_false_r. reflexivity.
 Qed.
 
-Lemma lex_str_e2 f c1 c2 r pos tmp start endpos :
-  negb ((byte_of c1 =? 128)%N && (byte_of c2 =? 157)%N) = true ->
-  lex_str (S f) (String e2 (String c1 (String c2 r))) pos tmp start endpos =
-  lex_str f (String c1 (String c2 r)) (S pos) (tmp ++ String e2 "") start endpos.
+Lemma lex_str_e2 curly f c1 c2 r pos tmp start endpos :
+  negb (curly && ((byte_of c1 =? 128)%N && (byte_of c2 =? 157)%N)) = true ->
+  lex_str curly (S f) (String e2 (String c1 (String c2 r))) pos tmp start endpos =
+  lex_str curly f (String c1 (String c2 r)) (S pos) (tmp ++ String e2 "") start endpos.
 Proof.
   intros H. rewrite lex_str_S.
   change (byte_of e2 =? 92)%N with false. change (byte_of e2 =? 34)%N with false. cbv iota.
-  assert (E : starts_rdq (String e2 (String c1 (String c2 r))) = false).
+  assert (E : curly && starts_rdq (String e2 (String c1 (String c2 r))) = false).
   { cbn [starts_rdq]. change (byte_of e2 =? 226)%N with true. cbn [andb].
+    destruct curly; [|reflexivity]. cbn [andb] in *.
     destruct (byte_of c1 =? 128)%N; [|reflexivity]. destruct (byte_of c2 =? 157)%N; [discriminate|reflexivity]. }
   rewrite E. reflexivity.
 Qed.
 
-Lemma lex_str_close f q rest pos tmp start endpos : is_closer q ->
-  lex_str (S f) (q ++ rest) pos tmp start endpos =
+Lemma lex_str_close curly f q rest pos tmp start endpos : is_closer curly q ->
+  lex_str curly (S f) (q ++ rest) pos tmp start endpos =
   if next_is_ws_or_end rest then (TLit (CStr tmp), rest, pos + String.length q)
   else (TErr PExpectWs start (pos + String.length q), rest, pos + String.length q).
 Proof.
-  intros [->| ->].
+  intros [->| [-> ->]].
   - cbn [append String.length]. rewrite lex_str_S.
     change (byte_of """" =? 92)%N with false. change (byte_of """" =? 34)%N with true. cbv iota zeta.
     replace (pos + 1) with (S pos) by lia. reflexivity.
   - rewrite lex_str_S. unfold rdq. cbn [append String.length].
     change (byte_of (ascii_of_N 226) =? 92)%N with false. change (byte_of (ascii_of_N 226) =? 34)%N with false.
-    cbv iota. cbn [starts_rdq str_drop].
+    cbv iota. cbn [starts_rdq str_drop andb].
     change ((byte_of (ascii_of_N 226) =? 226)%N && (byte_of (ascii_of_N 128) =? 128)%N &&
             (byte_of (ascii_of_N 157) =? 157)%N) with true.
     cbv iota zeta. reflexivity.
@@ -253,11 +257,11 @@ Proof.
   intros H. destruct c2 as [|[[] [] [] [] [] [] [] []] [|? ?]]; try reflexivity; apply H.
 Qed.
 
-Lemma lex_str_fuel : forall f1 f2 s pos tmp start endpos,
+Lemma lex_str_fuel : forall curly f1 f2 s pos tmp start endpos,
   String.length s < f1 -> String.length s < f2 ->
-  lex_str f1 s pos tmp start endpos = lex_str f2 s pos tmp start endpos.
+  lex_str curly f1 s pos tmp start endpos = lex_str curly f2 s pos tmp start endpos.
 Proof.
-  induction f1 as [|f1 IH]; intros f2 s pos tmp start endpos H1 H2; [lia|].
+  intros curly. induction f1 as [|f1 IH]; intros f2 s pos tmp start endpos H1 H2; [lia|].
   destruct f2 as [|f2]; [lia|]. rewrite !lex_str_S.
   destruct s as [|c r]; [reflexivity|]. cbn [String.length] in H1, H2.
   destruct (byte_of c =? 92)%N.
@@ -265,16 +269,16 @@ Proof.
     destruct (take_char_spec _ _ _ Et) as (k & K1 & K2 & K3).
     apply esc_ext. intros X. apply IH; subst r2; rewrite str_drop_length; lia.
   - destruct (byte_of c =? 34)%N; [reflexivity|].
-    destruct (starts_rdq (String c r)); [reflexivity|]. apply IH; lia.
+    destruct (curly && starts_rdq (String c r)); [reflexivity|]. apply IH; lia.
 Qed.
 
 (* reading a written body: the value is the concatenation of the item values *)
-Lemma lex_str_items_then : forall items f more pos tmp start endpos,
-  forallb sitem_ok items = true -> String.length (sitems_text items ++ more) < f ->
-  lex_str f (sitems_text items ++ more) pos tmp start endpos =
-  lex_str f more (pos + String.length (sitems_text items)) (tmp ++ sitems_value items) start endpos.
+Lemma lex_str_items_then : forall curly items f more pos tmp start endpos,
+  forallb (sitem_ok curly) items = true -> String.length (sitems_text items ++ more) < f ->
+  lex_str curly f (sitems_text items ++ more) pos tmp start endpos =
+  lex_str curly f more (pos + String.length (sitems_text items)) (tmp ++ sitems_value items) start endpos.
 Proof.
-  induction items as [|i items IH]; intros f more pos tmp start endpos Hok Hf.
+  intros curly. induction items as [|i items IH]; intros f more pos tmp start endpos Hok Hf.
   - cbn [sitems_text sitems_value append String.length]. rewrite app_nil_r_s, Nat.add_0_r. reflexivity.
   - cbn [forallb] in Hok. apply andb_prop in Hok. destruct Hok as [Hi Hok].
     cbn [sitems_text sitems_value] in *. rewrite !app_assoc_s in *. rewrite app_length_s in *.
@@ -282,49 +286,49 @@ Proof.
     destruct f as [|f]; [lia|].
     destruct i as [c|c1 c2|c]; cbn [sitem_text sitem_value sitem_ok append String.length] in *.
     + rewrite lex_str_plain by exact Hi. rewrite IH; [|exact Hok|lia].
-      rewrite (lex_str_fuel f (S f)) by lia.
+      rewrite (lex_str_fuel curly f (S f)) by lia.
       rewrite !app_assoc_s. cbn [append]. f_equal; lia.
     + apply andb_prop in Hi. destruct Hi as [Hi H3]. apply andb_prop in Hi. destruct Hi as [H1 H2].
       rewrite lex_str_e2 by exact H3.
       destruct f as [|f]; [lia|]. rewrite lex_str_plain by exact H1.
       destruct f as [|f]; [lia|]. rewrite lex_str_plain by exact H2.
       rewrite IH; [|exact Hok|lia].
-      rewrite (lex_str_fuel f (S (S (S f)))) by lia.
+      rewrite (lex_str_fuel curly f (S (S (S f)))) by lia.
       rewrite !app_assoc_s. cbn [append]. f_equal; lia.
     + destruct (escape_value c) as [v|] eqn:Ev; [|discriminate].
-      rewrite (lex_str_escape f c v _ pos tmp start endpos Ev).
+      rewrite (lex_str_escape curly f c v _ pos tmp start endpos Ev).
       rewrite IH; [|exact Hok|lia].
-      rewrite (lex_str_fuel f (S f)) by lia.
+      rewrite (lex_str_fuel curly f (S f)) by lia.
       rewrite !app_assoc_s. cbn [append]. f_equal; lia.
 Qed.
 
-Lemma lex_str_items : forall items f q rest pos tmp start endpos,
-  forallb sitem_ok items = true -> is_closer q ->
+Lemma lex_str_items : forall curly items f q rest pos tmp start endpos,
+  forallb (sitem_ok curly) items = true -> is_closer curly q ->
   String.length (sitems_text items ++ q ++ rest) < f ->
-  lex_str f (sitems_text items ++ q ++ rest) pos tmp start endpos =
+  lex_str curly f (sitems_text items ++ q ++ rest) pos tmp start endpos =
   let p' := pos + String.length (sitems_text items) + String.length q in
   if next_is_ws_or_end rest then (TLit (CStr (tmp ++ sitems_value items)), rest, p')
   else (TErr PExpectWs start p', rest, p').
 Proof.
-  intros items f q rest pos tmp start endpos Hok Hq Hf.
+  intros curly items f q rest pos tmp start endpos Hok Hq Hf.
   rewrite lex_str_items_then by assumption.
-  destruct f as [|f]; [lia|]. rewrite (lex_str_close f q rest _ _ start endpos Hq). reflexivity.
+  destruct f as [|f]; [lia|]. rewrite (lex_str_close curly f q rest _ _ start endpos Hq). reflexivity.
 Qed.
 
-(* the opening quote: straight or curly *)
-Definition is_opener (q : string) : Prop := q = String """" "" \/ q = ldq.
+(* the opening quote: straight ([curly] = false) or curly ([curly] = true) *)
+Definition is_opener (curly : bool) (q : string) : Prop := q = if curly then ldq else String """" "".
 
 (* Lex::next at an opening quote hands the text after it to the string scanner *)
-Lemma lex_next_opener l qo r : is_opener qo -> lrest l = qo ++ r ->
+Lemma lex_next_opener l curly qo r : is_opener curly qo -> lrest l = qo ++ r ->
   lex_next l =
-  let '(t, rest, pos) := lex_str (S (String.length r)) r (lpos l + String.length qo) "" (lpos l) (llen l) in
+  let '(t, rest, pos) := lex_str curly (S (String.length r)) r (lpos l + String.length qo) "" (lpos l) (llen l) in
   (t, mklex rest pos (lpos l) (llen l)).
 Proof.
   intros Ho Hl. rewrite lex_next_unfold. cbv zeta. rewrite Hl.
-  destruct Ho as [->| ->].
-  - cbn [append skip_ws]. change (is_ws """") with false. cbv iota. cbn [Nat.ltb Nat.leb].
+  unfold is_opener in Ho. subst qo. destruct curly.
+  2:{ cbn [append skip_ws]. change (is_ws """") with false. cbv iota. cbn [Nat.ltb Nat.leb].
     change (byte_of """" =? 34)%N with true. cbv iota. cbn [String.length].
-    replace (lpos l + 1) with (S (lpos l)) by lia. reflexivity.
+    replace (lpos l + 1) with (S (lpos l)) by lia. reflexivity. }
   - change (ldq ++ r)
       with (String (ascii_of_N 226) (String (ascii_of_N 128) (String (ascii_of_N 156) r))).
     cbn [skip_ws].
@@ -337,8 +341,8 @@ Proof.
 Qed.
 
 (* Lex::next on a quoted literal, in any lexer state *)
-Lemma lex_next_string l qo items qc rest :
-  is_opener qo -> is_closer qc -> forallb sitem_ok items = true ->
+Lemma lex_next_string l curly qo items qc rest :
+  is_opener curly qo -> is_closer curly qc -> forallb (sitem_ok curly) items = true ->
   lrest l = qo ++ sitems_text items ++ qc ++ rest ->
   let p' := lpos l + String.length qo + String.length (sitems_text items) + String.length qc in
   lex_next l = (if next_is_ws_or_end rest then TLit (CStr (sitems_value items))
@@ -346,15 +350,15 @@ Lemma lex_next_string l qo items qc rest :
                 mklex rest p' (lpos l) (llen l)).
 Proof.
   intros Ho Hc Hok Hl p'. rewrite lex_next_unfold. cbv zeta. rewrite Hl.
-  destruct Ho as [->| ->].
-  - cbn [append skip_ws]. change (is_ws """") with false. cbv iota. cbn [Nat.ltb Nat.leb].
+  unfold is_opener in Ho. subst qo. destruct curly.
+  2:{ cbn [append skip_ws]. change (is_ws """") with false. cbv iota. cbn [Nat.ltb Nat.leb].
     change (byte_of """" =? 34)%N with true. cbv iota.
     rewrite lex_str_items; [|exact Hok|exact Hc|].
     2:{ lia. }
     cbv zeta. subst p'. cbn [String.length append].
     replace (S (lpos l) + String.length (sitems_text items) + String.length qc)
       with (lpos l + 1 + String.length (sitems_text items) + String.length qc) by lia.
-    destruct (next_is_ws_or_end rest); reflexivity.
+    destruct (next_is_ws_or_end rest); reflexivity. }
   - change (ldq ++ sitems_text items ++ qc ++ rest)
       with (String (ascii_of_N 226) (String (ascii_of_N 128) (String (ascii_of_N 156) (sitems_text items ++ qc ++ rest)))).
     cbn [skip_ws].
@@ -385,13 +389,13 @@ Fixpoint print_items (s : string) : list sitem :=
   end.
 
 Lemma fmt_str_body_items : forall s b, fmt_str_body s = Some b ->
-  forallb sitem_ok (print_items s) = true /\ sitems_text (print_items s) = b /\
+  forall curly, forallb (sitem_ok curly) (print_items s) = true /\ sitems_text (print_items s) = b /\
   sitems_value (print_items s) = s.
 Proof.
-  induction s as [|c r IH]; intros b H; cbn [fmt_str_body] in H.
+  induction s as [|c r IH]; intros b H curly; cbn [fmt_str_body] in H.
   - injection H as <-. repeat split.
   - destruct (fmt_str_body r) as [r'|] eqn:Er; [|discriminate].
-    destruct (IH r' eq_refl) as (I1 & I2 & I3).
+    destruct (IH r' eq_refl curly) as (I1 & I2 & I3).
     cbn [print_items forallb sitems_text sitems_value]. rewrite I1, I2, I3.
     destruct (byte_of c =? 34)%N eqn:E1.
     { injection H as <-. apply N.eqb_eq, byte_of_inj in E1. subst c. repeat split. }
@@ -422,9 +426,9 @@ Lemma lex_next_printed_string l s b rest : fmt_str_body s = Some b ->
   lex_next l = (if next_is_ws_or_end rest then TLit (CStr s) else TErr PExpectWs (lpos l) p',
                 mklex rest p' (lpos l) (llen l)).
 Proof.
-  intros H Hl p'. destruct (fmt_str_body_items s b H) as (I1 & I2 & I3).
+  intros H Hl p'. destruct (fmt_str_body_items s b H false) as (I1 & I2 & I3).
   rewrite <- I2 in Hl.
-  rewrite (lex_next_string l dq (print_items s) dq rest (or_introl eq_refl) (or_introl eq_refl) I1 Hl).
+  rewrite (lex_next_string l false dq (print_items s) dq rest eq_refl (or_introl eq_refl) I1 Hl).
   cbv zeta. rewrite I2, I3. subst p'. change (String.length dq) with 1.
   replace (lpos l + 1 + String.length b + 1) with (lpos l + String.length b + 2) by lia. reflexivity.
 Qed.
@@ -462,46 +466,46 @@ Qed.
 (* ---------- unterminated strings ---------- *)
 
 (* a body without closing quote: error at the end of the text *)
-Lemma lex_str_unterminated : forall items f pos tmp start endpos,
-  forallb sitem_ok items = true -> String.length (sitems_text items) < f ->
-  lex_str f (sitems_text items) pos tmp start endpos =
+Lemma lex_str_unterminated : forall curly items f pos tmp start endpos,
+  forallb (sitem_ok curly) items = true -> String.length (sitems_text items) < f ->
+  lex_str curly f (sitems_text items) pos tmp start endpos =
   (TErr PUntermStr (pos + String.length (sitems_text items)) endpos, "", pos + String.length (sitems_text items)).
 Proof.
-  intros items f pos tmp start endpos Hok Hf.
+  intros curly items f pos tmp start endpos Hok Hf.
   rewrite <- (app_nil_r_s (sitems_text items)) at 1.
   rewrite lex_str_items_then; [|exact Hok|rewrite app_nil_r_s; exact Hf].
   destruct f as [|f]; [lia|]. reflexivity.
 Qed.
 
-Lemma lex_next_string_unterminated l qo items :
-  is_opener qo -> forallb sitem_ok items = true -> lrest l = qo ++ sitems_text items ->
+Lemma lex_next_string_unterminated l curly qo items :
+  is_opener curly qo -> forallb (sitem_ok curly) items = true -> lrest l = qo ++ sitems_text items ->
   let p' := lpos l + String.length qo + String.length (sitems_text items) in
   lex_next l = (TErr PUntermStr p' (llen l), mklex "" p' (lpos l) (llen l)).
 Proof.
-  intros Ho Hok Hl p'. rewrite (lex_next_opener l qo _ Ho Hl).
+  intros Ho Hok Hl p'. rewrite (lex_next_opener l curly qo _ Ho Hl).
   rewrite lex_str_unterminated; [|exact Hok|lia]. reflexivity.
 Qed.
 
 (* an unknown escape after a well-formed prefix of the body: the error is the backslash and
    the (whole, possibly multi-byte) character after it *)
-Lemma lex_next_string_bad_escape l qo items r c2 r2 :
-  is_opener qo -> forallb sitem_ok items = true -> lrest l = qo ++ sitems_text items ++ String "\" r ->
+Lemma lex_next_string_bad_escape l curly qo items r c2 r2 :
+  is_opener curly qo -> forallb (sitem_ok curly) items = true -> lrest l = qo ++ sitems_text items ++ String "\" r ->
   take_char r = Some (c2, r2) -> (forall c, escape_value c <> None -> c2 <> String c "") ->
   let p := lpos l + String.length qo + String.length (sitems_text items) in
   lex_next l = (TErr PEscape p (S p + String.length c2), mklex r2 (S p + String.length c2) (lpos l) (llen l)).
 Proof.
-  intros Ho Hok Hl Ht Hc p. rewrite (lex_next_opener l qo _ Ho Hl).
+  intros Ho Hok Hl Ht Hc p. rewrite (lex_next_opener l curly qo _ Ho Hl).
   rewrite lex_str_items_then; [|exact Hok|lia].
-  rewrite (lex_str_bad_escape _ r c2 r2 _ _ _ _ Ht Hc). reflexivity.
+  rewrite (lex_str_bad_escape _ _ r c2 r2 _ _ _ _ Ht Hc). reflexivity.
 Qed.
 
 (* a backslash as the last character of the text *)
-Lemma lex_next_string_trailing_backslash l qo items :
-  is_opener qo -> forallb sitem_ok items = true -> lrest l = qo ++ sitems_text items ++ "\" ->
+Lemma lex_next_string_trailing_backslash l curly qo items :
+  is_opener curly qo -> forallb (sitem_ok curly) items = true -> lrest l = qo ++ sitems_text items ++ "\" ->
   let p := lpos l + String.length qo + String.length (sitems_text items) in
   lex_next l = (TErr PUntermStr p (llen l), mklex "" (S p) (lpos l) (llen l)).
 Proof.
-  intros Ho Hok Hl p. rewrite (lex_next_opener l qo _ Ho Hl).
+  intros Ho Hok Hl p. rewrite (lex_next_opener l curly qo _ Ho Hl).
   rewrite lex_str_items_then; [|exact Hok|lia]. reflexivity.
 Qed.
 
